@@ -179,7 +179,10 @@ func callSites(fn *ast.FuncDecl) []site {
 				}
 				l := strings.Join(names, "_")
 				if l == "" {
-					l = "default"
+					// a default clause or a clause of a tagless switch: the call stays under the
+					// label of the enclosing clause (rewriting an if-chain into such a switch
+					// changes nothing)
+					l = label
 				}
 				for _, s := range v.Body {
 					walk(s, l)
